@@ -169,6 +169,26 @@ func c05Drive(rt *rapid.T, w *c05World, exec func(sdk.Msg) string, boundary func
 			}
 			w.refreshEnv()
 		},
+		// a tiny file with an astronomic replication count, paid once for a day (cheap: size x replicas is what is paid
+		// for), taken by one prover that may later lapse: every place that sizes something by MaxProofs is exercised
+		"hugeReplication": func(rt *rapid.T) {
+			a := w.accs[rapid.IntRange(0, 5).Draw(rt, "acc")]
+			nFile++
+			f := buildFile([]byte{byte(nFile)}, w.params().ChunkSize)
+			mp := rapid.SampledFrom([]int64{1 << 45, 1 << 50, 1 << 55, 1 << 62, math.MaxInt64}).Draw(rt, "replicas")
+			m := &storagetypes.MsgPostFile{Creator: a.Bech, Merkle: f.Merkle, FileSize: 1, MaxProofs: mp, Expires: w.f.Height() + 14_401 + rapid.Int64Range(0, 20).Draw(rt, "extra"), Note: "{}"}
+			r := exec(m)
+			w.logf("%s -> %s", msgSummary(m), r)
+			if r == "ok" {
+				f.Owner, f.Start, f.MaxProofs = a.Bech, w.f.Height(), mp
+				known[f.key()] = f
+				p := w.accs[rapid.IntRange(0, 5).Draw(rt, "firstProver")]
+				item, hl, _ := f.honestProof(0)
+				pm := &storagetypes.MsgPostProof{Creator: p.Bech, Item: item, HashList: hl, Merkle: f.Merkle, Owner: f.Owner, Start: f.Start, ToProve: 0}
+				w.logf("PostProof by %s for %s -> %s", short(p.Bech), f.id(), exec(pm))
+			}
+			w.refreshEnv()
+		},
 		"prove": func(rt *rapid.T) {
 			if len(known) == 0 {
 				rt.Skip()
